@@ -415,6 +415,11 @@ class Installer:
         outdir = os.path.split(to_file)[0]
         if not os.path.isfile(from_file) and not os.path.islink(from_file):
             raise MesonException(f'Tried to install something that isn\'t a file: {from_file!r}')
+        # A symbolic link that is in the way (e.g. left behind by an older
+        # version of the package) is replaced, like do_symlink() does: never
+        # test, compare against or write through whatever it points to.
+        if os.path.islink(to_file):
+            self.remove(to_file)
         # copyfile fails if the target file already exists, so remove it to
         # allow overwriting a previous install. If the target is not a file, we
         # want to give a readable error.
